@@ -64,6 +64,10 @@ def _job(args):
                                    'detail': '%s() on the queuing sink is not exactly the wrapped sink\'s %s(): %s -> %r' % (w, w, kinds, leaf),
                                    'scenario': {'kind': 'queue-stats'} if w == 'stats' else None})
         res['findings'] += static
+        if D == 0:
+            # the other builder order: configuration handling only (extraction + static obligations)
+            res['wall'] = round(time.time() - t0, 1)
+            return res
         if pid == 'C15' and cap_mode == 'bounded' and handler:
             # a thread sampling queued() concurrently with one producer and the worker (counters are now observable
             # mid-flight, so their updates are separate steps)
